@@ -14,6 +14,7 @@ import (
 	"golang.org/x/tools/go/packages"
 
 	"verif/engine/gengen"
+	"verif/engine/sym"
 )
 
 const genPrefix = "go.uber.org/thriftrw/zzverifgen"
@@ -62,6 +63,7 @@ func prepareGenerated(corpus []string, k, l int) (*GenInfo, func(), error) {
 	if err != nil {
 		return nil, nil, err
 	}
+	sym.RegisterTemp(tmp)
 	cleanup := func() { os.RemoveAll(tmp) }
 	fail := func(err error) (*GenInfo, func(), error) { cleanup(); return nil, nil, err }
 
